@@ -768,6 +768,14 @@ func (t *Table) Update(input *types.UpdateItemInput) (map[string]*types.Item, er
 		item = map[string]*types.Item{}
 	}
 
+	// a malformed update expression fails the request whatever the condition says: it is checked
+	// before the condition is evaluated (a registered native updater is named by the text, not parsed)
+	if !t.UseNativeInterpreter && input.UpdateExpression != "" {
+		if err := t.LangInterpreter.CheckUpdateSyntax(input.UpdateExpression); err != nil {
+			return nil, err
+		}
+	}
+
 	// support conditional writes
 	if err := checkConditionNotBlank(input.ConditionExpression); err != nil {
 		return nil, err
